@@ -301,3 +301,123 @@ def _mk_store(target, self_cls, dom, tags, base_key_assume):
 
 
 _mk_store(TXN + "_store_results", "TxnType", DOM_TT, ["C07", "C13"], "TransactionType")
+
+
+# ---- GroupIndices._store_results (C06): sizes copied; indices clamped below the largest possible size, then copied ------------
+GI = "tealer/analyses/dataflow/transaction_context/int_fields.py::GroupIndices."
+INTSET = T.Set(T.Int)
+
+
+def _int_cell(self, key, bterm, st):
+    return _set_cell(self, z3.StringVal(key), bterm, st, INTSET)
+
+
+def _bag_of(field, cterm, st):
+    fld = st.harr(f"F:BlockTransactionContext.{field}", z3.IntSort(), z3.IntSort())
+    bag = st.harr("L.bag:Int", z3.IntSort(), z3.ArraySort(z3.IntSort(), z3.IntSort()))
+    lst = z3.Select(fld, cterm)
+    return lst, z3.Select(bag, lst)
+
+
+def _clamped(self, bterm, old):
+    """x is a possible index after the clamp: a computed index below the largest computed size (no size: no index)"""
+    sizes, idxs = _int_cell(self, "GroupSize", bterm, old.st), _int_cell(self, "GroupIndex", bterm, old.st)
+    x, s_ = z3.Int(fresh_name("cx")), z3.Int(fresh_name("cs"))
+    return x, z3.And(z3.Select(idxs, x), x >= 0, z3.Exists([s_], z3.And(z3.Select(sizes, s_), x < s_)))
+
+
+def sizes_stored(self, bterm, old, new):
+    c0 = _ctx_term(self, bterm, old.st)
+    lst, bag = _bag_of("group_sizes", c0, new.st)
+    x = z3.Int(fresh_name("zx"))
+    return z3.And(lst > 0, lst < new.st.alloc_ptr(),
+                  z3.ForAll([x], z3.Select(bag, x) == z3.If(z3.Select(_int_cell(self, "GroupSize", bterm, old.st), x), 1, 0)))
+
+
+def indices_stored(self, bterm, old, new):
+    c0 = _ctx_term(self, bterm, old.st)
+    lst, bag = _bag_of("group_indices", c0, new.st)
+    x, inside = _clamped(self, bterm, old)
+    return z3.And(lst > 0, lst < new.st.alloc_ptr(), z3.ForAll([x], z3.Select(bag, x) == z3.If(inside, 1, 0)))
+
+
+def table_clamped(self, bterm, old, new):
+    x, inside = _clamped(self, bterm, old)
+    return z3.ForAll([x], z3.Select(_int_cell(self, "GroupIndex", bterm, new.st), x) == inside)
+
+
+def _all_blocks(self, fn, upto=None):
+    ctx = current()
+    bl = fn_of(self)._blocks
+    m = z3.Int(fresh_name("gm"))
+    n = ctx.ex.list_len(bl, ctx.st).term if upto is None else upto
+    return z3.ForAll([m], z3.Implies(z3.And(m >= 0, m < n), fn(ctx.ex.list_get(bl, m, ctx.st).term)))
+
+
+def int_ready(self):
+    """both tables have a cell for every block; computed sizes lie in 1..16 (what the lattice of the analysis contains)"""
+    ctx = current()
+    st = ctx.st
+    f = fn_of(self).term
+    dom_ = ctx.ex.dict_dom(self._block_contexts, st)
+    b, x = z3.Int(fresh_name("ib")), z3.Int(fresh_name("ix"))
+
+    def has(key):
+        k = z3.StringVal(key)
+        inner = VDict(BB, INTSET, z3.Select(ctx.ex.dict_map(self._block_contexts, st), k))
+        return z3.And(z3.Select(dom_, k), z3.Select(ctx.ex.dict_dom(inner, st), b))
+    tc = z3.Select(ctx.ex.dict_dom(fn_of(self)._transaction_contexts, st), b)
+    gs = z3.StringVal("GroupSize")
+    inner_gs = z3.Select(ctx.ex.dict_map(self._block_contexts, st), gs)
+    inner_gi = z3.Select(ctx.ex.dict_map(self._block_contexts, st), z3.StringVal("GroupIndex"))
+    return VBool(z3.And(z3.Select(dom_, gs), z3.Select(dom_, z3.StringVal("GroupIndex")), inner_gs != inner_gi,
+                        z3.ForAll([b], z3.Implies(INBLK(f, b), z3.And(
+                            tc, has("GroupSize"), has("GroupIndex"),
+                            z3.ForAll([x], z3.Implies(z3.Select(_int_cell(self, "GroupSize", b, st), x), z3.And(x >= 1, x <= 16))))))))
+
+
+c = contract(GI + "_store_results", params={"self": T.Ref("GroupIndices")}, returns=T.NoneT,
+             modifies=["F:BlockTransactionContext.group_sizes", "F:BlockTransactionContext.group_indices", "D.map:Int->Array(Int, Bool)"],
+             tags=["C06", "C13"])
+c.field_types = {("DataflowTransactionContext", "_block_contexts"): T.Dict(T.Str, T.Dict(BB, INTSET), default=True),
+                 ("BlockTransactionContext", "group_sizes"): T.List(T.Int, "bag"),
+                 ("BlockTransactionContext", "group_indices"): T.List(T.Int, "bag")}
+c.timeout_factor = 4.0
+c.axiom_bags = True
+c.loop_havoc = {1: ["D.map:Int->Array(Int, Bool)"], 2: [], 3: []}
+assumes(c, "inblk_def", lambda self: _inblk(self))
+requires(c, "owners", lambda self: owners(self))
+requires(c, "tables_ready", lambda self: int_ready(self))
+
+
+def _gi_between(self, entry, cur):
+    """every block's index set is its entry value or the clamped entry value; the size table is untouched"""
+    b = z3.Int(fresh_name("qb"))
+    x, inside = _clamped(self, b, entry)
+    y = z3.Int(fresh_name("qy"))
+    cur_gi, old_gi = _int_cell(self, "GroupIndex", b, cur.st), _int_cell(self, "GroupIndex", b, entry.st)
+    return z3.And(
+        z3.ForAll([b], z3.Or(cur_gi == old_gi, z3.ForAll([x], z3.Select(cur_gi, x) == inside))),
+        z3.ForAll([b], _int_cell(self, "GroupSize", b, cur.st) == _int_cell(self, "GroupSize", b, entry.st)),
+        # the dict structure itself (which dict holds which key) is not written
+        z3.Select(cur.st.harr("D.map:String->Int", z3.IntSort(), z3.ArraySort(z3.StringSort(), z3.IntSort())), self._block_contexts.ref)
+        == z3.Select(entry.st.harr("D.map:String->Int", z3.IntSort(), z3.ArraySort(z3.StringSort(), z3.IntSort())), self._block_contexts.ref))
+
+
+ensures(c, "clamped", lambda self, old, new: VBool(_all_blocks(self, lambda b: table_clamped(self, b, old, new))),
+        note="the index table keeps, for every block, the computed indices below the largest computed size (no size: no index)")
+ensures(c, "sizes", lambda self, old, new: VBool(_all_blocks(self, lambda b: sizes_stored(self, b, old, new))),
+        note="group_sizes of every block's context lists exactly the computed sizes")
+ensures(c, "indices", lambda self, old, new: VBool(_all_blocks(self, lambda b: indices_stored(self, b, old, new))),
+        note="group_indices of every block's context lists exactly the clamped indices")
+invariant(c, 1, "bi", lambda it, i, self, entry, cur: And(
+    i <= Len(it), VBool(_gi_between(self, entry, cur)),
+    VBool(_all_blocks(self, lambda b: table_clamped(self, b, entry, cur), upto=i.term))), label="clamped_so_far")
+invariant(c, 2, "block", lambda it, i, self, entry, cur: And(
+    i <= Len(it), VBool(_all_blocks(self, lambda b: sizes_stored(self, b, entry, cur), upto=i.term))), label="sizes_so_far")
+invariant(c, 3, "block", lambda it, i, self, entry, cur: And(
+    i <= Len(it), VBool(_all_blocks(self, lambda b: sizes_stored(self, b, entry, cur))),
+    VBool(_all_blocks(self, lambda b: indices_stored(self, b, entry, cur), upto=i.term))), label="indices_so_far")
+must_fail(c, "indices_not_clamped", lambda self, old, new: VBool(_all_blocks(self, lambda b: (lambda lst_bag: z3.ForAll(
+    [z3.Int("ux")], z3.Select(lst_bag[1], z3.Int("ux")) == z3.If(z3.Select(_int_cell(self, "GroupIndex", b, old.st), z3.Int("ux")), 1, 0)))(
+        _bag_of("group_indices", _ctx_term(self, b, old.st), new.st)))))
